@@ -267,8 +267,10 @@ pub mod __verif {
     pub const OVERLAP_SEL: usize = 6;
     /// Field pairs compared by `OverlappingFieldsCanBeMerged`.
     pub const OVERLAP_CMP: usize = 7;
+    /// Calls of `validation::utils::is_valid_input_value` (one per value and type layer checked).
+    pub const VALUE_CHECKS: usize = 8;
     /// Number of counters.
-    pub const N: usize = 8;
+    pub const N: usize = 9;
 
     static COUNTERS: [AtomicU64; N] = [const { AtomicU64::new(0) }; N];
 
